@@ -236,7 +236,11 @@ def gen_sched(g):
                 p = rng.choice(paths)
                 add(gen.did_open(p, docs[p]))
     # ---- initialize
-    init = gen.initialize(ids.next(), by=rng.choice(["rootPath", "rootUri", "both"]))
+    init = gen.initialize(ids.next(), by=rng.choice(["rootPath", "rootUri", "both"]),
+                          extra={"capabilities": rng.choice([{}, {}, gen.FULL_CAPABILITIES,
+                                                             {"workspace": gen.FULL_CAPABILITIES["workspace"]}]),
+                                 "processId": rng.choice([None, None, 4242]),
+                                 "clientInfo": {"name": "sim", "version": "1"}})
     if swarm["badparams"] and rng.random() < 0.08:
         init["m"]["params"] = rng.choice([None, [], {"rootPath": 5}, {"rootUri": None}, {}])
         if init["m"]["params"] is None:
@@ -361,7 +365,10 @@ def gen_sched(g):
     return {"argv": argv, "tree": docs, "ops": ops, "faults": faults, "buggify": bugs, "pool": pool,
             "chunks": chunks, "pipeline": pipeline, "sync_kind": 2 if incremental else 1,
             "strict_edits": False, "order": rng.choice([None, None, "rev", rng.randint(0, 999)]),
-            "swarm": [k for k in sorted(swarm) if swarm[k]]}
+            "swarm": [k for k in sorted(swarm) if swarm[k]],
+            # how many further messages of its own the client sends before it answers a request the
+            # server sent to it (0: at once)
+            "reply_delay": rng.choice([0, 0, 1, 2])}
 
 
 def nontrivial(o):
